@@ -247,6 +247,10 @@ def getitem(self, obj):
     return self._getitem_slice(toslice(obj))
 
 
+def at_public(self, at):
+    return self._getitem_at(_cast_i64(at))
+
+
 def _install_hooks():
     def at(self, i):
         return self._callc("getitem_at", str(i))
@@ -269,6 +273,11 @@ def _install_hooks():
         cls._getitem_field = fld
         cls._getitem_fields = flds
         cls._getitem_slice = slc
+        # public conveniences (the pybind11 module reaches these only through __getitem__)
+        cls.getitem_at = lambda self, at: at_public(self, at)
+        cls.getitem_range = lambda self, start, stop: rng(self, None if start is None else _cast_i64(start), None if stop is None else _cast_i64(stop))
+        cls.getitem_field = fld
+        cls.getitem_fields = lambda self, keys: flds(self, list(keys))
 
 
 _install_hooks()
